@@ -148,6 +148,7 @@ struct RunData {
   obs: Value,
   shape: Option<Shape>,
   loads: Vec<LoadRecord>,
+  npm_outcomes: Vec<(Vec<String>, Vec<bool>, bool)>,
   summary: ReportSummary,
 }
 
@@ -173,7 +174,7 @@ fn do_run(
       } else {
         None
       };
-      (shape, report.loads.clone())
+      (shape, report.loads.clone(), report.npm_outcomes.clone())
     },
   )?;
   Ok((
@@ -182,6 +183,7 @@ fn do_run(
       obs: b.obs,
       shape: b.extra.0,
       loads: b.extra.1,
+      npm_outcomes: b.extra.2,
       summary: b.summary,
     },
     t,
@@ -191,6 +193,7 @@ fn do_run(
 /// Oracles 1, 2, 3, 6 (apply to every run, faulted or not).
 fn check_settled(
   out: &mut CaseOutcome,
+  world: &World,
   run: &RunData,
   ctx: &Value,
 ) -> bool {
@@ -282,6 +285,113 @@ fn check_settled(
         ctx.clone(),
       );
       return false;
+    }
+  }
+  // every error entry that is not a root (or what a root redirects to)
+  // carries the referrer through which it was requested
+  let mut root_chain: BTreeSet<String> = BTreeSet::new();
+  for r in &shape.roots {
+    let mut cur = r.clone();
+    while root_chain.insert(cur.clone()) {
+      match shape.redirects.get(&cur) {
+        Some(t) => cur = t.clone(),
+        None => break,
+      }
+    }
+  }
+  for (k, slot) in &shape.slots {
+    if let SlotShape::Err {
+      referrer_range,
+      variant,
+      at,
+      ..
+    } = slot
+    {
+      if referrer_range.is_none() && !root_chain.contains(k) && !root_chain.contains(at) {
+        out.violation(
+          "C03",
+          "error-carries-referrer",
+          format!("error-without-referrer:{}", variant),
+          format!(
+            "error entry {} ({}) is not a root, yet carries no referrer",
+            k, variant
+          ),
+          ctx.clone(),
+        );
+        return false;
+      }
+    }
+  }
+  // npm: a requirement that resolves but whose dependency graph resolution
+  // fails, requested from a dynamic branch only, becomes an error entry
+  for (reqs, oks, dep_ok) in &run.npm_outcomes {
+    if reqs.len() != 1 || !oks[0] || *dep_ok {
+      continue;
+    }
+    for (k, slot) in &shape.slots {
+      let Some(rest) = k.strip_prefix("npm:") else {
+        continue;
+      };
+      let rest = rest.strip_prefix('/').unwrap_or(rest);
+      // name@req[/sub]
+      let req = {
+        let (scope_skip, body) = match rest.strip_prefix('@') {
+          Some(b) => (1, b),
+          None => (0, rest),
+        };
+        let mut parts = body.splitn(2 + scope_skip, '/');
+        let mut head = String::new();
+        if scope_skip == 1 {
+          head.push('@');
+          head.push_str(parts.next().unwrap_or(""));
+          head.push('/');
+        }
+        head.push_str(parts.next().unwrap_or(""));
+        head
+      };
+      let same_req = deno_semver::package::PackageReq::from_str(&req)
+        .ok()
+        .is_some_and(|r| r.to_string() == reqs[0]);
+      if !same_req || root_chain.contains(k) {
+        continue;
+      }
+      // every edge into k is dynamic
+      let mut edges = 0;
+      let mut all_dynamic = true;
+      for s2 in shape.slots.values() {
+        if let SlotShape::Module(m) = s2 {
+          for d in &m.deps {
+            if d.code.ok() == Some(k.as_str()) || d.typ.ok() == Some(k.as_str()) {
+              edges += 1;
+              all_dynamic &= d.is_dynamic;
+            }
+          }
+        }
+      }
+      // a static importer whose own entry was later replaced by an error no
+      // longer shows its edge
+      let static_importer_failed = world.descs.values().any(|d| {
+        matches!(shape.slots.get(&d.url), Some(SlotShape::Err { .. }))
+          && d.items.iter().any(|it| {
+            !it.form.is_dynamic() && resolve_text(world, &d.url, &it.spec) == *k
+          })
+      });
+      if edges > 0 && all_dynamic && !static_importer_failed {
+        out.count("probe.npm_dynamic_dep_graph_failure", 1);
+        if !matches!(slot, SlotShape::Err { .. }) {
+          out.violation(
+            "C03",
+            "fault-becomes-error",
+            "npm-dynamic-dep-graph-failure-not-an-error",
+            format!(
+              "the npm resolver resolved {} but failed its dependency graph when asked for it alone (dynamic import); {} is not an error entry",
+              reqs[0], k
+            ),
+            ctx.clone(),
+          );
+          return false;
+        }
+      }
     }
   }
   true
@@ -724,6 +834,38 @@ fn small_world(tape: &mut Tape) -> World {
     if tape.draw(Stream::World, 3) == 2 {
       crate::checks::worlds::add_remote_lockfile(tape, &mut w);
     }
+    if tape.draw(Stream::World, 6) == 5 {
+      // npm dimension: a dynamically imported package (resolved on its own,
+      // so that a dependency-graph failure can be pinned on it), optionally
+      // next to a statically imported one; the resolver rejects a package
+      // or fails the dependency graph
+      let importers: Vec<String> = w
+        .descs
+        .values()
+        .filter(|d| d.lang.is_script() && !d.lang.is_declaration())
+        .map(|d| d.url.clone())
+        .collect();
+      if !importers.is_empty() {
+        let imp = importers[tape.draw(Stream::World, importers.len() as u32) as usize].clone();
+        let mut d = w.descs.get(&imp).unwrap().clone();
+        d.items.push(Item::new(
+          Form::Dynamic,
+          *tape.pick(Stream::World, &["npm:chalk@5", "npm:chalk@5/sub", "npm:left-pad@1"]),
+        ));
+        if tape.draw(Stream::World, 2) == 1 {
+          d.items
+            .push(Item::new(Form::SideEffect, "npm:@types/x@1.0.0/sub"));
+        }
+        w.add_desc(d);
+        refresh_aliases(&mut w);
+        w.npm.enabled = tape.draw(Stream::World, 8) != 7;
+        w.npm.dep_graph_fails = tape.draw(Stream::World, 2) == 1;
+        w.npm.fail.clear();
+        if tape.draw(Stream::World, 4) == 3 {
+          w.npm.fail.insert("chalk".into());
+        }
+      }
+    }
     w
   }
 }
@@ -770,7 +912,7 @@ pub fn run_case(tape: &mut Tape, tier: Tier, p: &CaseParams) -> CaseOutcome {
   add_summary(&mut out, &base.summary, &base_sched);
   let wh = world_hash(&world);
   let ctx0 = json!({"plan": [], "sem": sem, "world": world.to_json()});
-  if !check_settled(&mut out, &base, &ctx0) {
+  if !check_settled(&mut out, &world, &base, &ctx0) {
     return out;
   }
   let reqs: Vec<LoadRecord> = base.loads.clone();
@@ -824,7 +966,7 @@ pub fn run_case(tape: &mut Tape, tier: Tier, p: &CaseParams) -> CaseOutcome {
       "world": world.to_json(),
     });
     let before = out.violations.len();
-    if check_settled(out, &run, &ctx) {
+    if check_settled(out, &world, &run, &ctx) {
       check_faulted(out, &world, &base, &run, &plan, &ctx);
     }
     if let Some(t) = replay_as {
